@@ -19,9 +19,13 @@ Definition idecode_tag (b : bytes) : payload Z :=
   end.
 
 (* command 11 is a request whose argument has the wrong type: the command body raises *)
+(* tag, zeros, closing 125 ("}"): a payload cut out of the stream at the wrong place does not have this form *)
 Definition idecode (b : bytes) : payload Z :=
   match b with
-  | t :: rest => if forallb (N.eqb 0) rest then idecode_tag b else PNotJson
+  | t :: rest => match rev rest with
+                 | 125%N :: mid => if forallb (N.eqb 0) mid then idecode_tag b else PNotJson
+                 | _ => PNotJson
+                 end
   | [] => PNotJson
   end.
 
@@ -33,7 +37,8 @@ Definition code (r : reply Z) : Z :=
   | Done _ => 5 | Stopped => 6 | CrashReport => 7
   end.
 
-Definition pad (tag : N) (n : nat) : bytes := match n with O => [] | S k => tag :: repeat 0%N k end.
+Definition pad (tag : N) (n : nat) : bytes :=
+  match n with O => [] | S O => [tag] | S (S k) => tag :: repeat 0%N k ++ [125%N] end.
 Definition fr (tag : N) (n : nat) : bytes := encode_frame (pad tag n).
 
 (* replies (coded), still serving?, status file present?, commands executed *)
